@@ -1,6 +1,7 @@
 import IRModel.Lemmas.WrapGlue
 import IRModel.Lemmas.WrapC05
 import IRModel.Lemmas.WrapC07
+import IRModel.Lemmas.WrapC03
 /-!
 # Wrapper-level theorems (per-protocol `encode()` / `decode()` bodies inside the model)
 
@@ -50,6 +51,25 @@ theorem C07_wrapper (t : Tables) (w : Wrapper) (hok : c07OK t w = true) (inst : 
     | .error e, .error e' => e = e'
     | _, _ => False :=
   C07_wrapper_spec t w (c07OK_spec t w hok) inst l hl hwf data hlong
+
+/-- **C03 at wrapper level**, from the kernel-checked obligations of one protocol: for EVERY non-negative parameter
+    assignment and `repeat_count` 0, 1, 2, every frame the traced `encode()` emits — `_build_packet` frames and
+    hand-assembled repeat frames alike — is a non-empty list of non-zero durations that starts with a mark, strictly
+    alternates, ends with a space and sums to the frame period where there is one; the number of frames grows by the same
+    positive amount per repeat; the code carries the protocol's carrier frequency. -/
+theorem C03_wrapper (t : Tables) (w : Wrapper) (tol : Match.Tol) (htol : tol.ok) (hw : wfAll t tol = true)
+    (hok : c03OK t w = true) (u : String → Int) (hu : ∀ n, 0 ≤ u n) :
+    (∀ rc, rc < 3 → ∃ fs, encodeFrames t w u rc = .ok fs ∧ fs.length = frameCount w rc ∧ fs ≠ [] ∧ ∀ f ∈ fs, FrameOK t f) ∧
+    (∃ d, 0 < d ∧ frameCount w 1 = frameCount w 0 + d ∧ frameCount w 2 = frameCount w 1 + d) ∧
+    w.frequency = some t.frequency := by
+  simp only [c03OK, Bool.and_eq_true, beq_iff_eq, List.all_eq_true, decide_eq_true_eq] at hok
+  obtain ⟨⟨⟨⟨⟨hlen, hall⟩, h01⟩, hd⟩, h12⟩, hf⟩ := hok
+  refine ⟨?_, ⟨frameCount w 1 - frameCount w 0, by omega, by omega, by omega⟩, hf⟩
+  intro rc hrc
+  have hlt : rc < w.enc.length := by omega
+  have htr : w.enc[rc]? = some w.enc[rc] := List.getElem?_eq_getElem hlt
+  obtain ⟨fs, h1, h2, h3, h4⟩ := C03_trace t tol htol hw w rc w.enc[rc] htr (hall _ (List.getElem_mem hlt)) u hu
+  exact ⟨fs, h1, by simp only [frameCount, htr]; exact h2, h3, h4⟩
 
 /-- non-vacuity: a two-field toy protocol (pulse distance, 8-bit function + its complement, `decode()` re-checks the
     complement) meets both obligations -/
